@@ -729,6 +729,53 @@ func patterns(r *lib.Report, tier string, samples *[]interface{}) (int64, int64)
 			}
 		}
 	}
+	// wide product types: every arity from 1 to 12, the kinds cycling through Int, String, Bool, Float64; the
+	// matching tuple is accepted, and the tuple with a value of another kind at any ONE position is refused
+	{
+		kindsCycle := []reflect.Kind{reflect.Int, reflect.String, reflect.Bool, reflect.Float64}
+		valOf := map[reflect.Kind]interface{}{reflect.Int: 1, reflect.String: "s", reflect.Bool: true, reflect.Float64: 2.5}
+		for n := 1; n <= 12; n++ {
+			var kinds []reflect.Kind
+			var good []interface{}
+			for i := 0; i < n; i++ {
+				k := kindsCycle[(i+n)%len(kindsCycle)]
+				kinds = append(kinds, k)
+				good = append(good, valOf[k])
+			}
+			pt := fpgo.DefSum(fpgo.DefProduct(kinds...))
+			for wrong := -1; wrong < n; wrong++ {
+				trans++
+				states++
+				args := append([]interface{}{}, good...)
+				if wrong >= 0 {
+					args[wrong] = valOf[kindsCycle[(wrong+n+1)%len(kindsCycle)]] // the next kind of the cycle: a different one
+				}
+				var cd *fpgo.CompData
+				p := lib.Catch(func() { cd = fpgo.NewCompData(pt, args...) })
+				if p != "" || (cd != nil) != (wrong < 0) {
+					r.Violation("C20|compdata|wide-product", fmt.Sprintf("product type of %d kinds %v, arguments %v (position %d holds another kind; -1: none): NewCompData returned a value: %v %s", n, kinds, args, wrong, cd != nil, p),
+						map[string]interface{}{"arity": n, "wrong_position": wrong})
+				}
+				if wrong >= 0 {
+					// and a sum-type pattern of this type must not accept a CompData of the neighbouring type
+					other := fpgo.DefSum(fpgo.DefProduct(func() []reflect.Kind {
+						ks := append([]reflect.Kind{}, kinds...)
+						ks[wrong] = kindsCycle[(wrong+n+1)%len(kindsCycle)]
+						return ks
+					}()...))
+					if od := fpgo.NewCompData(other, args...); od != nil {
+						trans++
+						got := ""
+						if p := lib.Catch(func() {
+							got = fmt.Sprint(fpgo.DefPattern(fpgo.InCaseOfSumType(pt, func(interface{}) interface{} { return "sum" }), fpgo.Otherwise(func(interface{}) interface{} { return "otherwise" })).MatchFor(od))
+						}); p != "" || got != "otherwise" {
+							r.Violation("C20|match|wide-product", fmt.Sprintf("a CompData of a %d-field product type that differs from the pattern's type at position %d: [SumType, Otherwise] chose %q %s", n, wrong, got, p), nil)
+						}
+					}
+				}
+			}
+		}
+	}
 	// an effect that fails: MatchFor has chosen the first accepting pattern - its effect is applied, no other
 	// pattern's effect is, and what the effect does (panic with its own value; a nested MatchFor that nothing
 	// accepts) is what the caller sees. Lists [p], [p, q] and [q, p] over all pairs of pattern kinds, p failing.
